@@ -2,6 +2,7 @@
 lemma over contracts relies on.  Each obligation is a named yes/no fact about the current source."""
 import ast
 import os
+import re
 
 STEPS = {   # CLI task -> (module alias expected in user_interface, function)
     "classify": "classify_intervals",
@@ -96,6 +97,15 @@ def step_obligations(repo):
         ctl = [t for t in ctl if t.strip().upper().split()[0] in ("BEGIN", "COMMIT", "ROLLBACK", "SAVEPOINT", "RELEASE")]
         out.append({"name": "%s:no-transaction-control-sql" % mod, "status": "proved" if not ctl else "refuted",
                     "backend": "AST inspection", "seconds": 0.0, "note": repr(ctl[:2])})
+        # the assumed contract "SQLite commits atomically, a killed process leaves the previous content" is SQLite's
+        # guarantee for its default rollback journal on disk with synchronous writes: a step that reconfigures the
+        # journal (memory / off), the syncing or the schema protection leaves that assumption
+        cfg = [t.strip()[:60] for t in texts
+               if re.search(r"\bPRAGMA\s+(\w+\.)?(journal_mode|synchronous|locking_mode|writable_schema|journal_size_limit|"
+                            r"cache_spill|temp_store|ignore_check_constraints|defer_foreign_keys|foreign_keys\s*=\s*(0|off|false))\b",
+                            t, re.I) or re.search(r"^\s*(ATTACH|DETACH|VACUUM)\b", t, re.I)]
+        out.append({"name": "%s:no-journal-or-durability-pragma" % mod, "status": "proved" if not cfg else "refuted",
+                    "backend": "AST inspection", "seconds": 0.0, "note": repr(cfg[:2])})
     return out
 
 
